@@ -84,7 +84,10 @@ def check(ctx, report):
     cf = method(model, 'ComposerBinary', '_compose_numeric_array', report)
     if pf is None or cf is None:
         return
+    tabulated = numeric_array_tabulation(ctx, report, pf, cf, {k: v for k, v in table.pairs if isinstance(k, int) and isinstance(v, str)})
     for k, sz in wide:
+        if tabulated:
+            break       # decided for every width and byte order by evaluating both primitives
         report.count('C11.R1', 3)
         padding_symmetry(ctx, report, pf, cf, k, sz)
         if not range_guard(cf, k):
@@ -159,6 +162,117 @@ def epoch_conversion(ct):
         if not ok:
             return 'calendar.timegm is applied to %s: the fields of a time zone aware value are not converted to UTC first (utctimetuple())' % ast.unparse(a)
     return None
+
+
+def numeric_array_tabulation(ctx, report, pf, cf, formats):
+    """_parse_numeric_array and _compose_numeric_array evaluated (sa.miniexec) for every width of the format table, the four
+    byte orders and boundary values, with struct.pack / struct.unpack replaced by their documented meaning (prefix = byte
+    order, code = width, struct.error for a value the code cannot hold or a buffer of another size).  Expected: the
+    value's ``width`` bytes in the chosen order; a value that does not fit raises InvalidValue; parsing gives the value back
+    and reports count * width bytes.  True when both functions stayed inside the evaluable subset (the syntactic padding /
+    range rules are the fallback otherwise)."""
+    from ..miniexec import Evaluator, Native, NativeError, Obj, Raised, Unsupported
+
+    class error(NativeError):        # matches ``except struct.error`` by name
+        pass
+    orders = {'BIG_ENDIAN': '>', 'LITTLE_ENDIAN': '<', 'NETWORK': '!', 'NATIVE': '='}
+    members = {n: Obj(name=n, value=p) for n, p in orders.items()}
+    endian = {'>': 'big', '!': 'big', '<': 'little', '=': 'little'}
+
+    def names(nm):
+        if nm.startswith('ByteOrder.') and nm.split('.')[1] in members:
+            return members[nm.split('.')[1]]
+        if nm == '_SIZE_TO_FORMAT':
+            return dict(formats)
+        if nm == 'int':
+            return int
+        raise Unsupported('free name ' + nm)
+
+    def hook(n, ev):
+        d = ast.unparse(n.func)
+        if d == 'struct.pack':
+            fmt, v = ev.ev(n.args[0]), ev.ev(n.args[1])
+            size = struct.calcsize('>' + fmt[1:])
+            if not isinstance(v, int) or isinstance(v, bool) or not 0 <= v < (1 << (8 * size)) or fmt[1:].lower() == fmt[1:] and v >= (1 << (8 * size - 1)):
+                raise error('argument out of range')
+            return v.to_bytes(size, endian[fmt[0]])
+        if d == 'struct.unpack':
+            fmt, b = ev.ev(n.args[0]), bytes(ev.ev(n.args[1]))
+            size = struct.calcsize('>' + fmt[1:])
+            if len(b) != size:
+                raise error('unpack requires a buffer of %d bytes' % size)
+            return (int.from_bytes(b, endian[fmt[0]], signed=fmt[1:].lower() == fmt[1:]),)
+        return NotImplemented
+
+    class Composer(Native):
+        def __init__(self, order):
+            self.byte_order, self._composed = order, bytearray()
+
+    class Parser(Native):
+        def __init__(self, order, data, pos):
+            self.byte_order, self._parsable, self._parsed_length = order, data, pos
+
+        @property
+        def unparsed_length(self):
+            return len(self._parsable) - self._parsed_length
+    cparams = [a.arg for a in cf.node.args.args][1:]
+    pparams = [a.arg for a in pf.node.args.args][1:]
+    if len(cparams) != 2 or len(pparams) != 4:
+        return False
+    try:
+        for oname, prefix in sorted(orders.items()):
+            for width in sorted(formats):
+                top = 1 << (8 * width)
+                for v in sorted({0, 1, 0x7f, 0x80, 0xff, top >> 1, (top >> 1) - 1, top - 1, top - 2, int.from_bytes(bytes(range(1, width + 1)), 'big')} - {-1}):
+                    if v >= top:
+                        continue
+                    report.count('C11.R1')
+                    want = v.to_bytes(width, endian[prefix])
+                    me = Composer(members[oname])
+                    try:
+                        Evaluator({'self': me, cparams[0]: [v], cparams[1]: width}, hook, names).function(cf.node)
+                        got = bytes(me._composed)
+                    except Raised as e:
+                        got = 'raises ' + e.what[:40]
+                    if got != want:
+                        report.add('C11.R1', cf.construct + '@value[%d,%s]' % (width, oname),
+                                   'ByteOrder.%s, width %d: %#x is composed as %s, expected %s' % (oname, width, v, got.hex() if isinstance(got, bytes) else got, want.hex()))
+                        break
+                    pr = Parser(members[oname], b'\xee' + want + want + b'\xdd', 1)
+                    try:
+                        res = Evaluator({'self': pr, pparams[0]: 'f', pparams[1]: 2, pparams[2]: width, pparams[3]: int}, hook, names).function(pf.node)
+                    except Raised as e:
+                        res = 'raises ' + e.what[:40]
+                    if not (isinstance(res, tuple) and len(res) == 2 and list(res[0]) == [v, v] and res[1] == 2 * width):
+                        report.add('C11.R1', pf.construct + '@value[%d,%s]' % (width, oname),
+                                   'ByteOrder.%s, width %d: two items %s are parsed as %s, expected ([%#x, %#x], %d)' % (oname, width, want.hex(), res, v, v, 2 * width))
+                        break
+                # refusal instead of truncation
+                for v in (top, top + 1, -1, top * 256 + 5):
+                    report.count('C11.R1')
+                    me = Composer(members[oname])
+                    try:
+                        Evaluator({'self': me, cparams[0]: [v], cparams[1]: width}, hook, names).function(cf.node)
+                        report.add('C11.R1', cf.construct + '@narrowing[%d]' % width,
+                                   'ByteOrder.%s: the value %#x does not fit %d byte(s) and is composed as %s instead of raising InvalidValue' % (oname, v, width, bytes(me._composed).hex()))
+                        break
+                    except Raised as e:
+                        if 'InvalidValue' not in e.what:
+                            report.add('C11.R1', cf.construct + '@narrowing[%d]' % width, 'a value that does not fit raises %s, not InvalidValue' % e.what[:50])
+                            break
+                # a short buffer is reported with the number of missing bytes
+                report.count('C11.R1')
+                pr = Parser(members[oname], b'\x00' * (2 * width - 1), 0)
+                try:
+                    Evaluator({'self': pr, pparams[0]: 'f', pparams[1]: 2, pparams[2]: width, pparams[3]: int}, hook, names).function(pf.node)
+                    report.add('C11.R1', pf.construct + '@short[%d]' % width, 'two %d byte items are parsed from %d bytes' % (width, 2 * width - 1))
+                except Raised as e:
+                    if 'NotEnoughData' not in e.what:
+                        report.add('C11.R1', pf.construct + '@short[%d]' % width, 'a short buffer raises %s, not NotEnoughData' % e.what[:50])
+    except Unsupported as e:
+        report.sample({'rule': 'C11.R1', 'tabulation': 'not applicable (%s): syntactic padding / range rules used instead' % e})
+        return False
+    return True
 
 
 def branch_for_order(ctx, f, width):
